@@ -1,8 +1,10 @@
 (* C19 (a): the guard of the replay theorems holds for EVERY configuration check_conf accepts.
-   No hypothesis on the user configuration (association lists with repeated keys, nested
-   dictionaries anywhere, the three special strings: all covered): the invariant comes from
-   update_conf itself (Proofs/JsonP.v) and from the regenerated schemas, none of which accepts
-   a dictionary as the value of a parameter (boolean test [no_dict], per-run obligation). *)
+   One hypothesis on the user configuration: the dictionary given as "input" has each key once
+   ([input_keys_once]; it is a Python dict).  Everything else is covered (association lists with
+   repeated keys elsewhere, nested dictionaries anywhere, the three special strings): the
+   invariant comes from update_conf itself (Proofs/JsonP.v) and from the regenerated schemas,
+   none of which accepts a dictionary as the value of a parameter (boolean test [no_dict],
+   per-run obligation). *)
 From Coq Require Import ZArith List Bool String Lia.
 From Pandora Require Import Model.Json Model.Checker Model.Pipeline Model.SavedCfg
   Proofs.CheckerP Proofs.SavedCfgP Proofs.RewriteP Proofs.IndicatorP Proofs.JsonP.
